@@ -817,6 +817,10 @@ def _positive_examples(rep):
     caches = [x for x in scratch.refutations if x["rule"] == "PU-CACHE"]
     if not any("_WS_TOTAL" in x["construct"] for x in caches):
         raise AnalysisError("positive example: the cache keyed by too little (_WS_TOTAL) was not flagged by PU-CACHE")
+    if not any("_BY_ID_SELF" in x["construct"] for x in caches):
+        raise AnalysisError("positive example: the identity-keyed cache that validates against the array itself (_BY_ID_SELF) was not flagged")
+    if any("_BY_ID_COPY" in x["construct"] for x in scratch.refutations):
+        raise AnalysisError("positive example: the identity-keyed cache built on a private copy (_BY_ID_COPY) was flagged")
     if any("_WS_SPLIT" in x["construct"] for x in scratch.refutations):
         raise AnalysisError("positive example: the completely keyed cache (_WS_SPLIT) was flagged")
     from . import memo_rule as _mr
